@@ -79,7 +79,7 @@ LANGS = ["none", "c", "c-header", "cpp-output", "qbe", "assembler", "assembler-w
 VALUES = ["X", "X=1", "a b", "x,y", "-foo", "é", "'q'", '"dq"', "a\\b", "%41;", "*", "$HOME", "a\tb", "N=(1+2)",
           "inc/dir", "..", "-", "--", "a|b", "#1"]
 OUTS = ["out.bin", "dir/o", "out/x.o", "-", "a b", "x,y", "res.s", "-", "r.qbe"]
-WARGS = ["--gc-sections", "-z", "now", "", "-MD", "a=b", "-rpath", "/x y", "-o"]
+WARGS = ["--gc-sections", "-z", "now", "", "-MD", "a=b", "-rpath", "/x y", "-O"]   # never "-o": the stubs take `-o X` as their output
 MODES = [None, None, None, "c", "c", "S", "E", "E", "emit-qbe", "M", "MM"]
 OPTS = (["D", "U", "I", "L", "l", "include", "idirafter", "isystem", "iquote", "MT", "MF"] * 2 +
         ["s", "v", "static", "nostdlib", "nostdinc", "pthread", "pipe", "pedantic", "MD", "MMD",
@@ -413,7 +413,8 @@ def judge(ck, drv, c, r, stats):
             "exit": r.rc, "stderr": r.stderr[-600:], "observed": [[e["role"]] + e["argv"][1:] for e in r.starts]}
     # (1) ok predicate: the documentation
     if c["items"] is None:
-        expect_doc = {"outcome": "usage", "why": "doc"}
+        supported = drv.cfg["target"].startswith(("x86_64-", "amd64-", "aarch64-", "riscv64-"))
+        expect_doc = {"outcome": "usage", "why": "doc"} if supported else {"outcome": "fatal-target"}
     else:
         expect_doc = c["doc"]
     dd = compare(expect_doc, r)
@@ -525,6 +526,7 @@ CORPUS = [
     {"argv": ["-o", "-", "-c", "a.c"]},
     {"argv": []},
     {"argv": ["-"]},
+    {"items": [("input", False, [""]), ("input", False, ["b"]), ("c", False, [])]},
 ]
 
 
@@ -623,8 +625,7 @@ def run(ck):
                       "log": ck.build_log[-3000:]}, nofail=True)
     ck.assumptions = ["posix_spawnp passes argv unchanged and dup2()s the pipe ends named in the file actions (libc)",
                       "configure writes the config.h the driver is built with (the check runs /repo/configure itself)",
-                      "command-line arguments contain no NUL and are not empty strings (argv[i][1] of an empty "
-                      "argument is read past its terminator by driver.c; not generated)"]
+                      "command-line arguments contain no NUL"]
 
 
 META = {
